@@ -7,6 +7,28 @@ PROP = "C11"
 def make_cases(rng, tier, n):
     cases, stats = [], {}
     for i in range(n):
+        if i % 20 == 7:
+            # a stage reading a file two and three levels below another stage's recursive directory output, pushed / fetched / pulled
+            # through the consumer alone: the producer is upstream of it at any depth
+            k3 = (i // 20) % 2 == 0
+            deep = b"out/d0/sub/deep/h" if k3 else b"out/d0/sub/g"
+            c = dict(id="pf-%d" % i, ops=[], cache=rng.choice(["rel", "abs"]), cyclic=False, nested=True, kinds=["dir", "file", "file"],
+                     edges=[(0, 1), (1, 2)],
+                     init=[("file", b"src/s0.txt", "g:%d:9" % rng.randrange(1000))],
+                     stages=[(b"st0.yaml", dict(cmd=b"vcmd S0 out/d0/ -- src/s0.txt", wd=b".", out=[(b"out/d0", "d")], **{"in": [(b"src/s0.txt", "")]})),
+                             (b"st1.yaml", dict(cmd=b"vcmd S1 out/o1.txt -- " + deep, wd=b".", out=[(b"out/o1.txt", "")], **{"in": [(deep, "")]})),
+                             (b"st2.yaml", dict(cmd=b"vcmd S2 out/o2.txt -- out/o1.txt", wd=b".", out=[(b"out/o2.txt", "")], **{"in": [(b"out/o1.txt", "")]}))])
+            tg = [[b"st1.yaml"], [b"st2.yaml"]][(i // 40) % 2]
+            ops = [("run", False, []), ("commit", rng.choice("lc"), []), ("push", False, tg), ("wipecache",)]
+            if (i // 20) % 3 == 1:
+                ops += [("clone", []), ("pull", rng.choice("lc"), False, tg), ("status", tg)]
+            else:
+                ops += [("fetch", False, tg), ("clone", []), ("checkout", rng.choice("lc"), False, tg), ("status", tg)]
+            c["ops"] = ops
+            c["flow"] = "deep_input_single"
+            stats["flow_deep_input_single"] = stats.get("flow_deep_input_single", 0) + 1
+            cases.append(c)
+            continue
         pipe = rng.random() < 0.3 or i % 10 == 4
         if pipe:
             c = gen.pipeline_project(rng, "pf-%d" % i, rng.choice([2, 3]), tier=tier, sink=(rng.random() < 0.5 or i % 10 == 4))
@@ -25,6 +47,28 @@ def make_cases(rng, tier, n):
             ops = [("commit", rng.choice("lc"), [])]
             names = [sp for sp, st in c["stages"]]
         keep = [b"workdir", b"workdir/inner"] if c.get("cwd") else []
+        if not pipe and i % 20 == 11:
+            # a cache written by an early dud (untagged manifest schema) with directories nested in directories, each level holding a
+            # file of its own: pushed, lost, fetched, checked out
+            d0 = [a for a in s1eval.artifacts(c) if a[1] == "d"]
+            if not d0:
+                c["init"].append(("dir", b"olddata"))
+                c["stages"].append((b"olddata.yaml", dict(cmd=b"", wd=b".", out=[(b"olddata", "d")])))
+                d0 = [(b"olddata", "d", b"olddata.yaml")]
+                names = [sp for sp, st in c["stages"]]
+            base = d0[0][0]
+            for lvl, sub in enumerate([b"/n1", b"/n1/n2", b"/n1/n2/n3", b"/m1"]):
+                if not any(e[1] == base + sub for e in c["init"]):
+                    c["init"].append(("dir", base + sub))
+                c["init"].append(("file", base + sub + b"/only%d.bin" % lvl, "g:%d:%d" % (rng.randrange(100000, 200000), 11 + lvl)))
+            sel = rng.choice([None, "01234567", "89abcdef"])
+            ops = [("commit", rng.choice("lc"), []), ("oldschema",) if sel is None else ("oldschema", sel), ("push", False, []), ("wipecache",),
+                   ("fetch", False, []), ("clone", keep), ("checkout", rng.choice("lc"), False, []), ("status", [])]
+            c["ops"] = ops
+            c["flow"] = "old_schema_nested"
+            stats["flow_old_schema_nested"] = stats.get("flow_old_schema_nested", 0) + 1
+            cases.append(c)
+            continue
         flow = rng.choice(["wipe", "wipe", "partial", "push_missing", "prepresent", "single"])
         if i % 10 == 4:
             flow = "single"          # every tenth case: a pipeline pushed / fetched through one named stage
